@@ -148,6 +148,16 @@ func genHistory(t *simrt.Tape, cfg histCfg) *History {
 		s := &Session{Ses: ses, PID: pid, UID: 1000 + si, Kind: kind}
 		if kind == "ssh" || kind == "login-only" || kind == "orphan-with-login" || kind == "unset-with-login" {
 			s.Login = GenLogin(t, pid, si+1)
+			if si > 0 && t.Choose(5, "field.eq.other.pid") == 4 {
+				// a number inside the login line happens to equal the PID of another sshd process:
+				// the client's source port, or a bracketed number in the certificate's key id
+				other := w.Sessions[t.Choose(si, "field.eq.of")].PID
+				if s.Login.Form == "cert" {
+					s.Login.KeyID = fmt.Sprintf("ci-job[%d]", other)
+				} else if other < 65536 {
+					s.Login.Port = other
+				}
+			}
 			if s.Login.Form == "cert" && t.Choose(4, "cert.reissued") == 3 {
 				// a re-issued (short-lived) certificate for the same key, signed by the same CA: same
 				// fingerprints as an earlier login, another key id and serial
